@@ -157,14 +157,27 @@ class Session:
             client="10.1.2.3:45678",
             server="10.9.8.7:8080",
             autoack=bool(self.script.get("autoack", True)),
+            maxchunk=int(self.script.get("maxchunk", 16384)),
         )
         for cr in self.script.get("creqs", []):
             self.trace.log("c_req", **cr)
+        for st in self.script.get("steps", []):
+            if "creq" in st:
+                self.trace.log("c_req", **st["creq"])
+        if self.script.get("unusual"):
+            # the stimulus contains a legal-but-rare request of this kind (C04)
+            self.trace.log("c_frame", kind="raw", stream=0, n=0, app="conn", legal=True,
+                           unusual=str(self.script["unusual"]))
 
     def steps(self) -> Iterator[Any]:
         """Generator: performs one stimulus per iteration; the environment settles the
         server after each `yield` (a yielded ("tick", t) asks it to advance the clock)."""
         env = self.env
+        if self.carrier in ("h2", "h2prior") and not self.script.get("manual_preface"):
+            for piece in self.client.start():
+                env.feed(piece)
+            self.client.after_start()
+            yield None
         for st in self.script["steps"]:
             s = st["s"]
             if s == "tick":
@@ -205,7 +218,16 @@ class Session:
             else:
                 if env.client_is_gone:
                     continue  # a client that closed or reset its side cannot send any more
-                self.client.step(st)
+                pieces = self.client.step(st)
+                if pieces is not None:
+                    # frame-producing clients return the bytes; segments are fed one per settle
+                    for i, piece in enumerate(pieces):
+                        if env.client_is_gone or env.server_closed:
+                            break
+                        env.feed(piece)
+                        self.client.fed(i, len(piece))
+                        if i < len(pieces) - 1:
+                            yield None
             yield None
 
     def finish_steps(self) -> Iterator[Any]:
